@@ -125,8 +125,9 @@ def _p5n(ctx):
                 if re_[0] != 'agg' or 'meta' not in re_[3]:
                     continue
                 mv = re_[4][re_[3].index('meta')]
+                # (handed in, or taken out of a shared cell; whatever allocator call the tree uses yields a fresh cell)
                 stale = [s_ for s_ in g.walk(mv) if s_[0] in ('param', 'unknown', 'hofarg') or
-                         (s_[0] == 'call' and not re.search(r'alloc::allocate$|(^|::)ptr::|cast|as_ptr|NonNull', g.call_name(s_[1]) or ''))]
+                         (s_[0] == 'call' and re.search(r'atomic::Atomic\w*(::<.*>)?::\w+$|Cell(::<.*>)?::(get|take|replace)$|Option(::<.*>)?::take$', g.call_name(s_[1]) or ''))]
                 if stale:
                     bad.append('a counter cell that is not allocated for this stream (%s)' % (g.call_name(stale[0][1]) if stale[0][0] == 'call' else 'handed in'))
             ok = not bad
